@@ -8,6 +8,7 @@ import DvcData.Model.Serialize
 import DvcData.Model.Status
 import DvcData.Model.Transfer
 import DvcData.Model.IndexDiff
+import DvcData.Model.IndexCheckout
 open Lean DvcData
 
 /-! Line-protocol driver: one JSON request per line on stdin, one JSON answer per line on stdout.
@@ -368,6 +369,40 @@ def opDiffEntry (j : Lean.Json) : Except String Lean.Json := do
                                        (← optEntryOf (r.getObjVal? "new" |>.toOption.getD .null))))
   pure (Lean.Json.mkObj [("typ", strArr rows)])
 
+/-! ### index checkout -/
+
+def wsOf (j : Lean.Json) : Except String IndexCheckout.Ws := do
+  (← j.getArr?).toList.mapM fun e => do
+    let k ← keyOf (← e.getObjVal? "key")
+    match e.getObjVal? "oid" with
+    | .ok (.str oid) => pure (k, IndexCheckout.Node.file oid.toList (boolOf e "exec"))
+    | _ => pure (k, IndexCheckout.Node.dir)
+
+def wsTo (ws : IndexCheckout.Ws) : Lean.Json :=
+  Lean.Json.arr (ws.map fun e => match e.2 with
+    | .dir => Lean.Json.mkObj [("key", keyTo e.1)]
+    | .file oid ex => Lean.Json.mkObj [("key", keyTo e.1), ("oid", String.ofList oid), ("exec", .bool ex)]).toArray
+
+def keysTo (l : List (Path.Key × MetaInfo.Entry)) : Lean.Json := Lean.Json.arr (l.map fun p => keyTo p.1).toArray
+
+def actionsTo (a : IndexCheckout.Actions) : Lean.Json :=
+  Lean.Json.mkObj [("files_delete", keysTo a.filesDelete), ("dirs_delete", keysTo a.dirsDelete),
+    ("files_create", keysTo a.filesCreate), ("dirs_create", keysTo a.dirsCreate), ("files_chmod", keysTo a.filesChmod)]
+
+def opIdxCheckout (j : Lean.Json) : Except String Lean.Json := do
+  let ws ← wsOf (← j.getObjVal? "ws")
+  let new ← indexOf (← j.getObjVal? "new")
+  let cache := (← strList j "cache").map (·.toList)
+  let delete := boolOf j "delete"
+  let old := some (IndexCheckout.indexOfWs ws)
+  let a := IndexCheckout.compare delete old new
+  match IndexCheckout.apply cache a ws with
+  | .crash w => pure (Lean.Json.mkObj [("actions", actionsTo a), ("crash", w)])
+  | .ok ws' errs =>
+    let a2 := IndexCheckout.compare delete (some (IndexCheckout.indexOfWs ws')) new
+    pure (Lean.Json.mkObj [("actions", actionsTo a), ("ws", wsTo ws'),
+      ("errors", Lean.Json.arr (errs.map keyTo).toArray), ("second", actionsTo a2)])
+
 def kindOf (s : String) : Except String Merge.Kind :=
   match s with
   | "add" => pure .add | "remove" => pure .remove | "change" => pure .change
@@ -403,6 +438,7 @@ def dispatch (j : Json) : Except String Json := do
   | "gc" => opGc j
   | "index_diff" => opIndexDiff j
   | "diff_entry" => opDiffEntry j
+  | "idx_checkout" => opIdxCheckout j
   | "ping" => pure (Json.mkObj [("pong", true)])
   | op => throw s!"unknown op {op}"
 
